@@ -365,31 +365,42 @@ def rule_numeq(repo, rep, r5):
     def txt(e):
         return ast.unparse(e).replace(" ", "")
 
-    # (a) NaN/NaN -> True
-    ok_nan = False
-    ok_inf = False
-    for n in tests:
-        t = txt(n.ast)
-        if t in (f"math.isnan({x})andmath.isnan({y})", f"math.isnan({y})andmath.isnan({x})"):
-            for lab, s in n.succ:
-                sn = g.nodes[s]
-                if lab == "T" and sn.kind == "stmt" and isinstance(sn.ast, ast.Return) and isinstance(sn.ast.value, ast.Constant) \
-                        and sn.ast.value.value is True:
-                    ok_nan = True
-        if t in (f"math.isinf({x})andmath.isinf({y})", f"math.isinf({y})andmath.isinf({x})"):
-            for lab, s in n.succ:
-                sn = g.nodes[s]
-                if lab == "T" and sn.kind == "stmt" and isinstance(sn.ast, ast.Return):
-                    rt = txt(sn.ast.value)
-                    if rt in (f"({x}>0.0)==({y}>0.0)", f"({y}>0.0)==({x}>0.0)", f"({x}>0)==({y}>0)", f"({x}<0.0)==({y}<0.0)"):
-                        ok_inf = True
-    r5.ob(ok_nan, "numeq: NaN and NaN -> True")
-    if not ok_nan:
-        rep.finding("R9.5", f, f.node, "numeq does not return True for two NaNs: empty aggregators (NaN mean/min/max) are not "
-                    "equal to themselves", stmt="nan==nan branch")
-    r5.ob(ok_inf, "numeq: infinities equal iff same sign")
-    if not ok_inf:
-        rep.finding("R9.5", f, f.node, "numeq does not compare two infinities by sign", stmt="inf branch")
+    # (a) decision table over IEEE classes with both tolerances zero (float-class interpretation of the body)
+    from .. import fclass as fc
+    classes = [("nan", fc.NAN), ("+inf", fc.PINF), ("-inf", fc.NINF), ("finite", fc.fin())]
+    for lx, vx in classes:
+        for ly, vy in classes:
+            it = fc.Interp(repo, None, [])
+            env = {x: vx, y: vy, "relativeTolerance": fc.fin(0), "absoluteTolerance": fc.fin(0)}
+            try:
+                paths = it.run(f, env)
+            except fc.Unsupported as e:
+                raise AnalysisError(f"{f.construct}: float-class interpretation failed: {e}")
+            if lx == "nan" and ly == "nan":
+                want = True
+            elif "nan" in (lx, ly):
+                want = False
+            elif lx == "finite" and ly == "finite":
+                want = "x==y"
+            elif "finite" in (lx, ly):
+                want = False
+            else:
+                want = lx == ly
+            for pth in paths:
+                if want == "x==y":
+                    ok = pth.outcome == "return" and pth.node is not None and txt(pth.node.value) in (f"{x}=={y}", f"{y}=={x}")
+                    got = txt(pth.node.value) if pth.node is not None else pth.outcome
+                else:
+                    ok = pth.outcome == "return" and pth.value is want
+                    got = pth.value if pth.outcome == "return" else pth.outcome
+                r5.ob(ok, f"numeq({lx}, {ly}) with zero tolerances -> {got}")
+                if not ok:
+                    what = {True: "True", False: "False", "x==y": "the exact comparison x == y"}[want]
+                    rep.finding("R9.5", f, pth.node if pth.node is not None else f.node, f"with zero tolerances numeq({lx}, {ly}) evaluates to {got!r} "
+                                f"(branches taken at lines {[ln for ln, b in pth.trail if b]}); it must be {what}"
+                                + (": empty aggregators (NaN mean/min/max) would not be equal to themselves" if (lx, ly) == ("nan", "nan") else ""),
+                                stmt=f"numeq({lx},{ly}) -> {got}")
+    tests = [n for n in g.nodes if n.kind == "test"]
     # (b) NaN branch precedes everything else; (c) tolerance branches guarded by `> 0` and widening; (d) final x == y
     tol_ok = True
     ntol = 0
@@ -424,17 +435,6 @@ def rule_numeq(repo, rep, r5):
                         stmt=f"tolerance branch {norm(n.stmt)}")
     if ntol == 0:
         r5.ob(True, "numeq: no tolerance branches")
-    last = None
-    for lab, p in g.ret.pred:
-        pn = g.nodes[p]
-        if pn.kind == "stmt" and isinstance(pn.ast, ast.Return):
-            if last is None or pn.lineno > last.lineno:
-                last = pn
-    okf = last is not None and txt(last.ast.value) in (f"{x}=={y}", f"{y}=={x}")
-    r5.ob(okf, "numeq: falls back to exact ==")
-    if not okf:
-        rep.finding("R9.5", f, last.stmt if last is not None else f.node, "with zero tolerances numeq does not end in the exact "
-                    "comparison `x == y`", stmt="final exact comparison")
     # module-level defaults are zero
     for nm in ("relativeTolerance", "absoluteTolerance"):
         v = um.assigns.get(nm)
